@@ -1140,7 +1140,6 @@ fc_statements = [
         buf_args=["arg_decl"],
         c_arg_decl=[
             # Argument is a pointer while std::string is a scalar.
-            # C++ compiler will convert to std::string when calling function.
             "char *{c_var}",
         ],
         f_arg_decl=[
@@ -1148,6 +1147,16 @@ fc_statements = [
             "character(kind=C_CHAR), intent(IN) :: {c_var}(*)",
         ],
         f_module=dict(iso_c_binding=["C_CHAR"]),
+        # Create the std::string explicitly. Passing the char pointer
+        # and relying on the implicit conversion selects another
+        # overload when one accepts a pointer (bool, const char *).
+        cxx_local_var="scalar",
+        pre_call=[
+            "std::string {cxx_var}({c_var});",
+        ],
+        call=[
+            "{cxx_var}",
+        ],
     ),
     dict(
         name="c_string_scalar_in_buf",
